@@ -281,16 +281,35 @@ def gen_archive_model(r, nfiles=6, ndirs=2, hostile=False, xattrs=False, hardlin
         if t == "file" and sparse and r.random() < 0.25 and len(te.content) > 0:
             # turn the content into a sparse file: data segments with holes between / after them
             data = te.content
+            many = len(data) >= 200 and r.random() < 0.3        # dozens of tiny regions: maps longer than one 512 byte block
             segs, pos, off = [], 0, r.choice([0, 0, 512, 4096, 100000])
             while pos < len(data):
-                ln = min(len(data) - pos, r.choice([1, 512, 1000, 4096, len(data)]))
+                if many and len(segs) < 150 and len(data) - pos > 1:
+                    ln = min(len(data) - pos - 1, r.choice([1, 2, 3, 9]))
+                else:
+                    ln = min(len(data) - pos, r.choice([1, 512, 1000, 4096, len(data)]))
                 segs.append((off, ln))
                 pos += ln
-                off += ln + r.choice([0, 512, 4096, 1 << 20])
+                off += ln + r.choice([0, 512, 4096, 1 << 20] if not many else [1, 7, 512, 100])
             te.segments = segs
             te.realsize = segs[-1][0] + segs[-1][1] + r.choice([0, 0, 4096, 12345])
-            te.sparse_fmt = r.choice(["gnu-old", "pax-0.0", "pax-0.1", "pax-1.0"])
+            te.sparse_fmt = r.choice(["gnu-old", "pax-0.0", "pax-0.1", "pax-1.0"]) if not many else r.choice(["pax-1.0", "pax-1.0", "gnu-old", "pax-0.1"])
+            if many and te.sparse_fmt == "pax-1.0":
+                # shift all regions by a constant until the newline behind some number is the LAST byte of a 512 byte map block
+                for shift in range(0, 3000):
+                    m = b"%d\n" % len(segs) + b"".join(b"%d\n%d\n" % (o + shift, n) for o, n in segs)
+                    if len(m) > 512 and m[511:512] == b"\n" and len(m) > 513:
+                        te.segments = [(o + shift, n) for o, n in segs]
+                        te.realsize += shift
+                        break
         out.append(te)
+    if r.random() < 0.3:
+        # a name component of exactly 100 bytes below a directory: fills the ustar name field completely (no terminator), prefix non-empty
+        dirs = [x.name for x in out if x.type == "dir" and x.name not in (b"./", b"/") and len(x.name) < 100]
+        if dirs:
+            d = r.choice(dirs).rstrip(b"/")
+            nm = bytes(r.choice(b"abcdefghijklmnopqrstuvwxyz0123456789") for _ in range(100))
+            out.append(TEntry(d + b"/" + nm, "file", mode=0o644, uid=0, gid=0, mtime=77, content=b"exactly one hundred"))
     return out
 
 
